@@ -171,6 +171,12 @@ theorem oct_import_unsupported (cfg : Cfg) (P : Prims) (j : Parts) (h : j.kty = 
 theorem parse_render (cfg : Cfg) (ms : List Member) (hc : MembersClean ms = true) :
     parseJwk cfg (renderMembers ms) = visit cfg (toks ms) := Jwk.parse_render cfg ms hc
 
+/-- … and the premise holds for everything `encode_jwk` writes: any key (symmetric too), any mode, any `alg` view.  So the
+    text of every export is parsed into exactly the members that were written. -/
+theorem parse_export (cfg : Cfg) (k : Key) (mode : Mode) (a : Option Alg) (ms : List Member) (h : encodeJwk k mode a = .ok ms) :
+    MembersClean ms = true ∧ toJwk k mode a = .ok (renderMembers ms) ∧ parseJwk cfg (renderMembers ms) = visit cfg (toks ms) :=
+  ⟨Jwk.encodeJwk_clean k mode a ms h, by simp [toJwk, h], Jwk.parse_render cfg ms (Jwk.encodeJwk_clean k mode a ms h)⟩
+
 /-- base64url text is clean, whatever the bytes -/
 theorem b64_text_clean (b : Bytes) : Clean (b64encode b) = true := Jwk.Clean_b64encode b
 
